@@ -47,6 +47,10 @@ __CPROVER_ensures(SPEC_EXT_ENTRY_OK(m->c8, SPEC_MAP.c8, SPEC_C8V, g_te))
 
 /* dfcc verifies a function for ANY value of non-const static data.  `dialects[]` is never written; the
    VERIF_CONST_DATA hook compiles it as const under BEEBTOOLS_VERIF, so its initialiser is what the proof sees. */
+/* p is the string c0 c1 ... (up to 7 characters and the NUL; comparison stops at the first NUL of the literal) */
+#define STR_IS_(p, c0, c1, c2, c3, c4, c5, c6, c7) \
+  ((p)[0] == (c0) && ((c0) == 0 || ((p)[1] == (c1) && ((c1) == 0 || ((p)[2] == (c2) && ((c2) == 0 || ((p)[3] == (c3) && ((c3) == 0 || ((p)[4] == (c4) && \
+   ((c4) == 0 || ((p)[5] == (c5) && ((c5) == 0 || ((p)[6] == (c6) && ((c6) == 0 || (p)[7] == (c7)))))))))))))))
 #define STR_IS_6502(p) ((p)[0] == '6' && (p)[1] == '5' && (p)[2] == '0' && (p)[3] == '2' && (p)[4] == 0)
 
 bool set_dialect(const char *name, enum Dialect *d)
@@ -58,5 +62,20 @@ __CPROVER_ensures(__CPROVER_return_value ==> (*d >= MIN_DIALECT && *d < NUM_DIAL
 __CPROVER_ensures(!__CPROVER_return_value ==> *d == __CPROVER_old(*d))
 /* the default dialect name is always known (C08/C19: the default must really be set) */
 __CPROVER_ensures(STR_IS_6502(name) ==> (__CPROVER_return_value && *d == mos6502_32000))
+/* C03: the ten dialect names (doc/bbcbasic_to_text.1 "BBC BASIC DIALECTS": 32000 is the same as 6502, 8086 the same as Z80,
+   SDL and MacOSX are the Windows dialect; PDP11 is the tenth), each selecting its own dialect, and no other name is known */
+__CPROVER_ensures(STR_IS_(name, '3','2','0','0','0',0,0,0) ==> (__CPROVER_return_value && *d == mos6502_32000))
+__CPROVER_ensures(STR_IS_(name, 'P','D','P','1','1',0,0,0) ==> (__CPROVER_return_value && *d == PDP11))
+__CPROVER_ensures(STR_IS_(name, 'Z','8','0',0,0,0,0,0) ==> (__CPROVER_return_value && *d == Z80_80x86))
+__CPROVER_ensures(STR_IS_(name, '8','0','8','6',0,0,0,0) ==> (__CPROVER_return_value && *d == Z80_80x86))
+__CPROVER_ensures(STR_IS_(name, 'A','R','M',0,0,0,0,0) ==> (__CPROVER_return_value && *d == ARM))
+__CPROVER_ensures(STR_IS_(name, 'W','i','n','d','o','w','s',0) ==> (__CPROVER_return_value && *d == Windows))
+__CPROVER_ensures(STR_IS_(name, 'S','D','L',0,0,0,0,0) ==> (__CPROVER_return_value && *d == Windows))
+__CPROVER_ensures(STR_IS_(name, 'M','a','c','O','S','X',0,0) ==> (__CPROVER_return_value && *d == Windows))
+__CPROVER_ensures(STR_IS_(name, 'M','a','c',0,0,0,0,0) ==> (__CPROVER_return_value && *d == Mac))
+__CPROVER_ensures(__CPROVER_return_value ==>
+                  (STR_IS_6502(name) || STR_IS_(name, '3','2','0','0','0',0,0,0) || STR_IS_(name, 'P','D','P','1','1',0,0,0) || STR_IS_(name, 'Z','8','0',0,0,0,0,0) ||
+                   STR_IS_(name, '8','0','8','6',0,0,0,0) || STR_IS_(name, 'A','R','M',0,0,0,0,0) || STR_IS_(name, 'W','i','n','d','o','w','s',0) ||
+                   STR_IS_(name, 'S','D','L',0,0,0,0,0) || STR_IS_(name, 'M','a','c','O','S','X',0,0) || STR_IS_(name, 'M','a','c',0,0,0,0,0)))
 ;
 #endif
